@@ -13,7 +13,7 @@ var Props = []*h.Prop{
 		Stub:        stubQuery,
 		Assumptions: []string{"conditions are evaluated with the semantics stated in C09 ('!=' is the complement of '=', address comparisons true only within one family)", "row order is not compared (C14 is not claimed)"}},
 	{ID: "C11", Run: c11, Bubble: true,
-		Rule:        "one evaluation = one generated database (1-80 days) and query executed under 3-5 configurations (workers 1-16 via the guarded hook, low-memory on/off) each under a seeded schedule (uniform / burst / priority with change points / run-to-completion) that decides at every file-system operation which worker goroutine proceeds; results compared with the sequential run and the reference model; one run in eight is a termination run over 2047-2112 day directories with one worker; non-trivial = at least two worker goroutines were parked at once (the schedule had a choice) or a termination run; distinct = distinct event-log hash including every scheduling decision",
+		Rule:        "one evaluation = one generated database (1-80 days; in one run of three followed by one or two day directories without metadata, as left by a writer that has just started the day) and query executed under 3-5 configurations (workers 1-16 via the guarded hook, low-memory on/off) each under a seeded schedule (uniform / burst / priority with change points / run-to-completion) that decides at every file-system operation which worker goroutine proceeds; results compared with the sequential run and the reference model; one run in eight is a termination run over 2047-2112 day directories with one worker; non-trivial = at least two worker goroutines were parked at once (the schedule had a choice) or a termination run; distinct = distinct event-log hash including every scheduling decision",
 		Real:        realQuery,
 		Stub:        stubQuery,
 		Assumptions: []string{"interleavings are controlled at file-system operations (every open/read/seek/stat/close/readdir); code between two operations runs under the Go scheduler", "termination = the query returns within one simulated hour of idling once no goroutine can proceed"}},
